@@ -723,6 +723,7 @@ Variable bufsize : N.
 Variable qmax : nat.
 Notation encode_rec := (HeadChunks.encode_rec crc32).
 Notation resident := (resident crc32).
+Notation append := (HeadChunks.append crc32).
 
 (* a chunk the writer accepts: well formed, an encoding pool.Get knows, and small enough for a file *)
 Definition wf_write (r : rec) : Prop :=
@@ -737,7 +738,19 @@ Lemma encode_rec_nlen r : nlen (encode_rec r) = rec_size r.
 Proof. unfold nlen. rewrite encode_rec_length, rec_size_len. reflexivity. Qed.
 
 (* jobs not yet written, oldest first *)
-Definition pjobs (s : st) : list job := match wk s with WStart j => j :: queue s | _ => queue s end.
+Definition uncut (j : job) : job := mkJob false (j_ref j) (j_rec j).
+
+Definition pjobs (s : st) : list job :=
+  match wk s with
+  | WStart j => j :: queue s
+  | WRun j p =>
+      match p with
+      | PClr1 | PNew => j :: queue s                   (* the cut is not finished *)
+      | PPre | PClr2 | PApp => uncut j :: queue s      (* the file is there, the chunk not yet appended *)
+      | PPost | PClr3 => queue s
+      end
+  | _ => queue s
+  end.
 
 (* where the writer will be after the jobs js, starting at file q, offset o (opn: a file is open);
    None when a job's ref is not the position it will be written at *)
@@ -845,12 +858,12 @@ Proof.
     + rewrite Hseq, N.eqb_refl. rewrite <- Hseq, Hcb. reflexivity.
 Qed.
 (* ---- mini-steps of the worker *)
-Lemma core_flush s G J : Core s G J -> cur_open s = true -> Core (flush s) G J.
+Lemma core_flushout s G J : Core s G J -> cur_open s = true -> Core (flushout s) G J.
 Proof.
   intros C Ho. destruct (c_open _ _ _ C Ho) as (Hseq & bs & Hbs & Hlen).
   assert (Hd : dmax (set_file (cur_seq s) (fun b => b ++ wbuf s) (files s)) = dmax (files s))
     by (apply dmax_keys, set_file_keys).
-  constructor; unfold flush; cbn [ev_seq ev_off cur_open cur_seq cur_off wbuf cbuf files pend].
+  constructor; unfold flushout; cbn [ev_seq ev_off cur_open cur_seq cur_off wbuf cbuf files pend].
   - rewrite Hd. exact (c_pos _ _ _ C).
   - intros H. rewrite Ho in H. discriminate.
   - intros _. rewrite Hd. split; [exact Hseq|]. exists (bs ++ wbuf s). split.
@@ -863,19 +876,43 @@ Proof.
       destruct (N.eq_dec (fst rf) (cur_seq s)) as [Eq | Ne].
       * exists (b ++ wbuf s). rewrite Eq in *. rewrite Hbs in Hf. inversion Hf. subst b.
         split; [apply (lookup_set_file_same (cur_seq s) (fun b => b ++ wbuf s)); exact Hbs|]. split; [exact Hp|]. split; [exact Hbel|].
-        left. split; [|intros _; left; reflexivity].
-        destruct Hloc as [[Hr _] | (_ & _ & _ & Hr)]; [apply resident_app; exact Hr | exact Hr].
+        destruct Hloc as [[Hr Hc] | (H1 & H2 & H3 & Hr)].
+        -- left. split; [apply resident_app; exact Hr | exact Hc].
+        -- right. split; [exact H1|]. split; [exact H2|]. split; [exact H3|]. rewrite app_nil_r. exact Hr.
       * exists b. split; [rewrite lookup_set_file_other by exact Ne; exact Hf|]. split; [exact Hp|]. split; [exact Hbel|].
         left. destruct Hloc as [[Hr _] | (_ & Hs & _)]; [|contradiction].
         split; [exact Hr | intros H; contradiction].
 Qed.
 
-Definition uncut (j : job) : job := mkJob false (j_ref j) (j_rec j).
+(* chunkBuffer.clear() once the writer is empty: every buffered chunk is in the file *)
+Lemma core_clear s G J : Core s G J -> wbuf s = [] -> Core (clearbuf s) G J.
+Proof.
+  intros C Hw.
+  constructor; unfold clearbuf; cbn [ev_seq ev_off cur_open cur_seq cur_off wbuf cbuf files pend].
+  - exact (c_pos _ _ _ C).
+  - intros H. destruct (c_closed _ _ _ C H) as (A & _ & B). auto.
+  - exact (c_open _ _ _ C).
+  - exact (c_jobs _ _ _ C).
+  - intros rf r HG. destruct (c_live _ _ _ C rf r HG) as [Hrok [A | (b & Hf & Hp & Hbel & Hloc)]]; split; try exact Hrok.
+    + left. exact A.
+    + right. exists b. cbn [files pend cur_open cur_off cur_seq cbuf wbuf].
+      split; [exact Hf|]. split; [exact Hp|]. split; [exact Hbel|].
+      left. split; [|intros _; left; reflexivity].
+      destruct Hloc as [[Hr _] | (_ & _ & _ & Hr)]; [exact Hr|]. rewrite Hw, app_nil_r in Hr. exact Hr.
+Qed.
 
-(* cutSegmentFile + new mapping: the part of cut() after finalizeCurFile *)
-Definition newfile (s : st) : st :=
-  mkSt (ev_seq s) (ev_off s) (ev_cut s) (queue s) (pend s) (wk s) (cbuf s)
-       true (dmax (files s) + 1) 8 [] (files s ++ [(dmax (files s) + 1, hc_header)]) ((dmax (files s) + 1) :: born s).
+Lemma core_uncut s G j J : Core s G (j :: J) -> j_cut j = false -> Core s G (uncut j :: J).
+Proof.
+  intros C Hcut. constructor.
+  - destruct (c_pos _ _ _ C) as (opn' & Hrep). exists opn'. cbn [replay uncut j_cut j_ref j_rec] in *.
+    rewrite Hcut in Hrep. exact Hrep.
+  - exact (c_closed _ _ _ C).
+  - exact (c_open _ _ _ C).
+  - pose proof (c_jobs _ _ _ C) as HJ. inversion HJ as [|? ? Hj Ht]; subst. constructor; [exact Hj | exact Ht].
+  - intros rf r HG. destruct (c_live _ _ _ C rf r HG) as [Hrok [(j' & Hin & Hr1 & Hr2) | A]]; split; try exact Hrok.
+    + left. destruct Hin as [<- | Hin]; [exists (uncut j); cbn; auto | exists j'; cbn; auto].
+    + right. exact A.
+Qed.
 
 Lemma core_newfile s G j J : Core s G (j :: J) -> j_cut j = true -> cbuf s = [] -> wbuf s = [] ->
   Core (newfile s) G (uncut j :: J).
@@ -902,12 +939,6 @@ Proof.
       * rewrite Hcb in Hc. discriminate.
 Qed.
 
-(* the chunk's bytes go to the writer, the chunk into chunkBuffer *)
-Definition append (s : st) (j : job) : st :=
-  mkSt (ev_seq s) (ev_off s) (ev_cut s) (queue s) (pend s) (WDone j) ((j_ref j, j_rec j) :: cbuf s)
-       (cur_open s) (cur_seq s) (cur_off s + nlen (encode_rec (j_rec j))) (wbuf s ++ encode_rec (j_rec j))
-       (files s) (born s).
-
 Lemma core_append s G j J : Core s G (j :: J) -> j_cut j = false ->
   Core (append s j) G J /\
   cur_open s = true /\ fst (j_ref j) = dmax (files s) /\ snd (j_ref j) = cur_off s.
@@ -921,7 +952,7 @@ Proof.
   pose proof (c_jobs _ _ _ C) as HJ. inversion HJ as [|? ? [Hjrok Hjp] Ht]; subst.
   pose proof (rec_size_pos (j_rec j)) as Hpos.
   split; [|rewrite Eref; cbn; auto].
-  constructor; unfold append; cbn [ev_seq ev_off cur_open cur_seq cur_off wbuf cbuf files pend].
+  constructor; unfold HeadChunks.append; cbn [ev_seq ev_off cur_open cur_seq cur_off wbuf cbuf files pend].
   - exists opn'. rewrite Ho, encode_rec_nlen. exact Hrep.
   - rewrite Ho. discriminate.
   - intros _. split; [exact Hseq|]. exists bs. split; [exact Hbs|].
@@ -963,82 +994,118 @@ Proof.
   - exact (c_live _ _ _ C).
 Qed.
 
+(* what is known about the writer in each phase of the worker *)
+Definition done_ok (s : st) (j : job) : Prop :=
+  cur_open s = true /\ fst (j_ref j) = dmax (files s) /\
+  snd (j_ref j) + rec_size (j_rec j) <= cur_off s.
+
 Definition wk_ok (s : st) : Prop :=
   match wk s with
-  | WDone j => cur_open s = true /\ fst (j_ref j) = dmax (files s) /\
-               snd (j_ref j) + rec_size (j_rec j) <= cur_off s
+  | WDone j => done_ok s j
+  | WRun j PClr1 => j_cut j = true /\ cur_open s = true /\ wbuf s = []
+  | WRun j PNew => j_cut j = true /\ cbuf s = [] /\ wbuf s = []
+  | WRun j PClr2 => wbuf s = [] /\ cur_open s = true
+  | WRun j PPost => done_ok s j
+  | WRun j PClr3 => done_ok s j /\ wbuf s = []
   | _ => True
   end.
 
 Definition Inv (s : st) (G : list (ref * rec)) : Prop := Core s G (pjobs s) /\ wk_ok s.
 
-(* ---- the worker writes one job *)
-Lemma proc_ok s G j : Core s G (j :: queue s) -> wk s = WStart j ->
-  exists sF seq off, do_proc crc32 bufsize s = (sF, OProc true seq off) /\
-    Core sF G (queue s) /\ wk_ok sF /\ wk sF = WDone j /\ queue sF = queue s.
+Lemma flushout_dmax s : dmax (files (flushout s)) = dmax (files s).
+Proof. apply dmax_keys, set_file_keys. Qed.
+
+(* ---- one atomic action of the worker keeps the invariant: in particular in the state between
+   chkWriter.Flush() and chunkBuffer.clear(), and in the state just before Flush() *)
+Lemma step_micro s G : Inv s G -> Inv (fst (micro crc32 bufsize s)) G.
 Proof.
-  intros C Hwk. unfold do_proc. rewrite Hwk.
-  (* after the optional cut *)
-  set (sA := if j_cut j then do_cutfile s else s).
-  set (jA := if j_cut j then uncut j else j).
-  assert (HA : Core sA G (jA :: queue s) /\ j_cut jA = false /\ j_ref jA = j_ref j /\ j_rec jA = j_rec j /\
-               queue sA = queue s /\
-               (j_cut j = true -> cur_seq sA = dmax (files sA) /\ cur_off sA = 8)).
-  { unfold sA, jA. destruct (j_cut j) eqn:Hcut.
-    - assert (Ecf : do_cutfile s = newfile (if cur_open s then flush s else s)) by reflexivity.
-      rewrite Ecf. destruct (cur_open s) eqn:Ho.
-      + split; [apply core_newfile; [apply core_flush; assumption | exact Hcut | reflexivity | reflexivity]|].
-        split; [reflexivity|]. split; [reflexivity|]. split; [reflexivity|]. split; [reflexivity|].
-        intros _. unfold newfile. cbn [cur_seq files cur_off]. split; [|reflexivity].
-        symmetry. apply dmax_app1. lia.
-      + destruct (c_closed _ _ _ C Ho) as (_ & Hcb & Hwb).
-        split; [apply core_newfile; assumption|].
-        split; [reflexivity|]. split; [reflexivity|]. split; [reflexivity|]. split; [reflexivity|].
-        intros _. unfold newfile. cbn [cur_seq files cur_off]. split; [|reflexivity].
-        symmetry. apply dmax_app1. lia.
-    - split; [exact C|]. split; [exact Hcut|]. split; [reflexivity|]. split; [reflexivity|]. split; [reflexivity|].
-      discriminate. }
-  destruct HA as (CA & HcutA & HrefA & HrecA & HqA & HcutPos).
-  destruct (core_append sA G jA (queue s) CA HcutA) as (_ & HoA & HfstA & HsndA).
-  (* the expected-ref check of cutAndExpectRef passes *)
-  assert (Echk : j_cut j && negb (ref_eqb (cur_seq sA, 8) (j_ref j)) = false).
-  { destruct (j_cut j) eqn:Hcut; [|reflexivity]. cbn [andb].
-    destruct (HcutPos eq_refl) as [Hs8 Ho8].
-    assert (Er : (cur_seq sA, 8) = j_ref j).
-    { rewrite <- HrefA. destruct (j_ref jA) as [a b]. cbn [fst snd] in *. rewrite Hs8, HfstA, HsndA, Ho8. reflexivity. }
-    rewrite Er, ref_eqb_refl. reflexivity. }
-  rewrite Echk. rewrite HoA. cbn [negb].
-  set (small := nlen (r_data (j_rec j)) + 34 <? bufsize).
-  set (s2 := if small && (bufsize - nlen (wbuf sA) <? 34 + nlen (r_data (j_rec j))) then flush sA else sA).
-  assert (C2 : Core s2 G (jA :: queue s) /\ cur_open s2 = true /\ dmax (files s2) = dmax (files sA) /\ cur_off s2 = cur_off sA).
-  { unfold s2. destruct (small && _).
-    - split; [apply core_flush; assumption|]. split; [exact HoA|]. split; [apply dmax_keys, set_file_keys | reflexivity].
-    - auto. }
-  destruct C2 as (C2 & Ho2 & Hd2 & Hoff2).
-  destruct (core_append s2 G jA (queue s) C2 HcutA) as (C3 & _ & Hfst2 & Hsnd2).
-  set (s3 := mkSt (ev_seq s2) (ev_off s2) (ev_cut s2) (queue s2) (pend s2) (WDone j)
-                  ((j_ref j, j_rec j) :: cbuf s2) (cur_open s2) (cur_seq s2)
-                  (cur_off s2 + nlen (encode_rec (j_rec j))) (wbuf s2 ++ encode_rec (j_rec j)) (files s2) (born s2)).
-  assert (C3' : Core s3 G (queue s)).
-  { apply (core_ext (append s2 jA)); [.. | exact C3];
-      unfold append, s3; cbn [ev_seq ev_off pend cbuf cur_open cur_seq cur_off wbuf files];
-      rewrite ?HrefA, ?HrecA; reflexivity. }
-  assert (Hq2 : queue s2 = queue s).
-  { unfold s2. destruct (small && _); [cbn; exact HqA | exact HqA]. }
-  assert (W3 : wk_ok s3 /\ cur_open s3 = true).
-  { unfold wk_ok, s3. cbn [wk cur_open files cur_off]. rewrite Ho2. split; [|reflexivity]. split; [reflexivity|].
-    rewrite <- HrefA, <- HrecA. split; [exact Hfst2|]. rewrite Hsnd2, encode_rec_nlen. lia. }
-  destruct W3 as [W3 Ho3].
-  destruct small.
-  - exists s3, (cur_seq s3), (cur_off s3). split; [reflexivity|]. split; [exact C3'|]. split; [exact W3|].
-    split; [reflexivity | exact Hq2].
-  - exists (flush s3), (cur_seq s3), (cur_off s3). split; [reflexivity|].
-    split; [apply core_flush; assumption|].
-    split; [| split; [reflexivity | exact Hq2]].
-    unfold wk_ok in *. cbn [flush wk cur_open files cur_off] in *. cbn [s3 wk] in W3.
-    destruct W3 as (A & B & D). split; [exact A|]. split; [|exact D].
-    rewrite B. symmetry. apply dmax_keys, set_file_keys.
+  intros [C W]. unfold micro. destruct (wk s) as [|j|j p|j] eqn:Hwk; try (cbn [fst]; split; assumption).
+  - (* WStart *)
+    assert (Hpj : pjobs s = j :: queue s) by (unfold pjobs; rewrite Hwk; reflexivity). rewrite Hpj in C.
+    destruct (j_cut j) eqn:Hcut; [destruct (cur_open s) eqn:Ho|]; cbn [fst]; split.
+    + unfold pjobs. cbn [set_wk wk queue flushout]. apply (core_ext (flushout s)); try reflexivity.
+      apply core_flushout; assumption.
+    + unfold wk_ok. cbn [set_wk wk cur_open wbuf flushout]. auto.
+    + unfold pjobs. cbn [set_wk wk queue]. apply (core_ext s); try reflexivity. exact C.
+    + unfold wk_ok. cbn [set_wk wk cbuf wbuf]. destruct (c_closed _ _ _ C Ho) as (_ & A & B). auto.
+    + unfold pjobs. cbn [set_wk wk queue]. apply (core_ext s); try reflexivity. apply core_uncut; assumption.
+    + unfold wk_ok. cbn [set_wk wk]. exact I.
+  - (* WRun *)
+    unfold wk_ok in W. rewrite Hwk in W. unfold pjobs in C. rewrite Hwk in C.
+    destruct p.
+    + (* PClr1 *) destruct W as (Hcut & Ho & Hw). cbn [fst]. split.
+      * unfold pjobs. cbn [set_wk wk queue clearbuf]. apply (core_ext (clearbuf s)); try reflexivity.
+        apply core_clear; assumption.
+      * unfold wk_ok. cbn [set_wk wk cbuf wbuf clearbuf]. auto.
+    + (* PNew *) destruct W as (Hcut & Hcb & Hw).
+      pose proof (core_newfile s G j (queue s) C Hcut Hcb Hw) as C1.
+      destruct (core_append (newfile s) G (uncut j) (queue s) C1 eq_refl) as (_ & Ho1 & Hf1 & Hs1).
+      destruct (c_open _ _ _ C1 Ho1) as (Hseq1 & _).
+      assert (Er : ref_eqb (cur_seq (newfile s), 8) (j_ref j) = true).
+      { apply ref_eqb_eq. cbn [uncut j_ref] in Hf1, Hs1. destruct (j_ref j) as [a b]. cbn [fst snd] in *.
+        rewrite Hseq1, Hf1, Hs1. reflexivity. }
+      rewrite Er. cbn [negb fst]. split.
+      * unfold pjobs. cbn [set_wk wk queue newfile]. apply (core_ext (newfile s)); try reflexivity. exact C1.
+      * unfold wk_ok. cbn [set_wk wk]. exact I.
+    + (* PPre *)
+      destruct (core_append s G (uncut j) (queue s) C eq_refl) as (_ & Ho & _ & _).
+      rewrite Ho. cbn [negb]. destruct (pre_flush bufsize s j); cbn [fst]; split.
+      * unfold pjobs. cbn [set_wk wk queue flushout]. apply (core_ext (flushout s)); try reflexivity.
+        apply core_flushout; assumption.
+      * unfold wk_ok. cbn [set_wk wk cur_open wbuf flushout]. auto.
+      * unfold pjobs. cbn [set_wk wk queue]. apply (core_ext s); try reflexivity. exact C.
+      * unfold wk_ok. cbn [set_wk wk]. exact I.
+    + (* PClr2 *) destruct W as (Hw & Ho). cbn [fst]. split.
+      * unfold pjobs. cbn [set_wk wk queue clearbuf]. apply (core_ext (clearbuf s)); try reflexivity.
+        apply core_clear; assumption.
+      * unfold wk_ok. cbn [set_wk wk]. exact I.
+    + (* PApp *)
+      destruct (core_append s G (uncut j) (queue s) C eq_refl) as (C3 & Ho & Hf & Hs).
+      cbn [uncut j_ref j_rec] in Hf, Hs.
+      assert (C3' : Core (append s j) G (queue s)).
+      { apply (core_ext (append s (uncut j))); try reflexivity. exact C3. }
+      assert (D : done_ok (append s j) j).
+      { unfold done_ok, HeadChunks.append. cbn [cur_open files cur_off]. split; [exact Ho|]. split; [exact Hf|].
+        rewrite Hs, encode_rec_nlen. lia. }
+      destruct (nlen (r_data (j_rec j)) + 34 <? bufsize); cbn [fst]; split.
+      * unfold pjobs. cbn [HeadChunks.append wk queue]. exact C3'.
+      * unfold wk_ok. cbn [HeadChunks.append wk]. exact D.
+      * unfold pjobs. cbn [set_wk wk queue HeadChunks.append]. apply (core_ext (append s j)); try reflexivity. exact C3'.
+      * unfold wk_ok. cbn [set_wk wk]. exact D.
+    + (* PPost *) destruct W as (Ho & Hf & Hs). cbn [fst]. split.
+      * unfold pjobs. cbn [set_wk wk queue flushout]. apply (core_ext (flushout s)); try reflexivity.
+        apply core_flushout; assumption.
+      * unfold wk_ok. cbn [set_wk wk]. split; [|reflexivity].
+        unfold done_ok. change (cur_open (set_wk (flushout s) (WRun j PClr3))) with (cur_open s).
+        change (files (set_wk (flushout s) (WRun j PClr3))) with (files (flushout s)).
+        change (cur_off (set_wk (flushout s) (WRun j PClr3))) with (cur_off s).
+        rewrite flushout_dmax. auto.
+    + (* PClr3 *) destruct W as ((Ho & Hf & Hs) & Hw). cbn [fst]. split.
+      * unfold pjobs. cbn [set_wk wk queue clearbuf]. apply (core_ext (clearbuf s)); try reflexivity.
+        apply core_clear; assumption.
+      * unfold wk_ok. cbn [set_wk wk]. unfold done_ok. cbn [set_wk clearbuf cur_open files cur_off]. auto.
 Qed.
+
+Lemma to_site_inv G : forall fuel b s s', Inv s G -> to_site crc32 bufsize fuel b s = Some s' -> Inv s' G.
+Proof.
+  induction fuel as [|f IH]; intros b s s' HI; cbn [to_site]; destruct (at_site bufsize b s).
+  - intros H. inversion H. subst. exact HI.
+  - discriminate.
+  - intros H. inversion H. subst. exact HI.
+  - pose proof (step_micro s G HI) as HI'. destruct (micro crc32 bufsize s) as [s1 [| | |]]; try discriminate.
+    apply IH. exact HI'.
+Qed.
+
+Lemma run_micro_inv G : forall fuel n s, Inv s G -> Inv (fst (run_micro crc32 bufsize fuel n s)) G.
+Proof.
+  induction fuel as [|f IH]; intros n s HI; cbn [run_micro]; [exact HI|].
+  pose proof (step_micro s G HI) as HI'. destruct (micro crc32 bufsize s) as [s1 [| | |]]; cbn [fst] in *.
+  - apply IH. exact HI'.
+  - exact HI'.
+  - exact HI.
+  - exact HI.
+Qed.
+
 (* ---- the ghost set of chunks that must be readable, and the admissible steps *)
 Definition has_file (q : N) (fs : list (N * list N)) : bool :=
   match lookup q fs with Some _ => true | None => false end.
@@ -1093,7 +1160,7 @@ Proof.
   set (jn := mkJob cut (seq, off) r).
   match goal with |- Inv ?S _ => set (s' := S) end.
   assert (Hpj : pjobs s' = pjobs s ++ [jn]).
-  { unfold pjobs, s'. cbn [wk queue]. destruct (wk s); reflexivity. }
+  { unfold pjobs, s'. cbn [wk queue]. destruct (wk s) as [| |? []|]; reflexivity. }
   destruct (c_pos _ _ _ C) as (opn' & Hrep).
   destruct (replay_refs _ _ _ _ _ _ _ Hrep) as [_ Hrefs].
   assert (Hnew : replay opn' (ev_seq s) (ev_off s) [jn] = Some (true, seq, off + btw) /\ rok (seq, off) r).
@@ -1253,16 +1320,21 @@ Proof.
         split; [|exact Hloc].
         destruct Hpos as [[Hd _] | (_ & _ & Hnil & _)]; [rewrite Hd; exact Hbel|].
         rewrite Hnil in Eb. discriminate.
-  - unfold wk_ok in *. change (wk (do_trunc s n)) with (wk s). destruct (wk s); try exact I.
-    change (cur_open (do_trunc s n)) with (cur_open s). change (cur_off (do_trunc s n)) with (cur_off s).
-    destruct W as (Ho & Hf & Hs). destruct Hpos as [[Hd _] | (_ & Ho' & _)]; [|congruence].
-    rewrite Hd. auto.
+  - assert (Hdone : forall j, done_ok s j -> done_ok (do_trunc s n) j).
+    { intros j (Ho & Hf & Hs). unfold done_ok.
+      change (cur_open (do_trunc s n)) with (cur_open s). change (cur_off (do_trunc s n)) with (cur_off s).
+      destruct Hpos as [[Hd _] | (_ & Ho' & _)]; [|congruence]. rewrite Hd. auto. }
+    unfold wk_ok in *. change (wk (do_trunc s n)) with (wk s).
+    change (cur_open (do_trunc s n)) with (cur_open s). change (wbuf (do_trunc s n)) with (wbuf s).
+    change (cbuf (do_trunc s n)) with (cbuf s).
+    destruct (wk s) as [| |j []|j]; try exact I; try exact W; try (apply Hdone; exact W).
+    destruct W as [W1 W2]. split; [apply Hdone; exact W1 | exact W2].
 Qed.
 
 Lemma step_inv s G x : Inv s G -> safe_step s x ->
   Inv (fst (do_step crc32 bufsize qmax s x)) (ghost G s x (fst (do_step crc32 bufsize qmax s x)) (snd (do_step crc32 bufsize qmax s x))).
 Proof.
-  intros HI Hs. destruct x as [r | | n | | | | rf]; cbn [do_step].
+  intros HI Hs. destruct x as [r | | n | | | | | b | rf]; cbn [do_step].
   - apply step_write; assumption.
   - cbn [fst snd ghost]. destruct HI as [C W]. split.
     + apply (core_ext s); try reflexivity. exact C.
@@ -1274,18 +1346,17 @@ Proof.
     cbn [fst snd ghost]. split.
     + unfold pjobs in *. rewrite Hwk, Hq in C. cbn [wk queue]. apply (core_ext s); try reflexivity. exact C.
     + unfold wk_ok. cbn [wk]. exact I.
-  - (* proc *) destruct HI as [C W]. destruct (wk s) as [|j|j] eqn:Hwk.
-    + unfold do_proc. rewrite Hwk. cbn [fst snd ghost]. split; assumption.
-    + assert (Hpj : pjobs s = j :: queue s) by (unfold pjobs; rewrite Hwk; reflexivity).
-      rewrite Hpj in C. destruct (proc_ok s G j C Hwk) as (sF & sq & of & Hp & CF & WF & HwF & HqF).
-      rewrite Hp. cbn [fst snd ghost]. split; [|exact WF].
-      unfold pjobs. rewrite HwF, HqF. exact CF.
-    + unfold do_proc. rewrite Hwk. cbn [fst snd ghost]. split; assumption.
-  - (* done *) destruct (wk s) as [|j|j] eqn:Hwk.
+  - (* proc *) assert (Hg : ghost G s SProc (fst (do_proc crc32 bufsize s)) (snd (do_proc crc32 bufsize s)) = G) by reflexivity.
+    rewrite Hg. apply run_micro_inv. exact HI.
+  - (* done *) destruct (wk s) as [|j|j p|j] eqn:Hwk.
+    + unfold do_done. rewrite Hwk. cbn [fst snd ghost]. exact HI.
     + unfold do_done. rewrite Hwk. cbn [fst snd ghost]. exact HI.
     + unfold do_done. rewrite Hwk. cbn [fst snd ghost]. exact HI.
     + assert (Hg : ghost G s SDone (fst (do_done s)) (snd (do_done s)) = G) by reflexivity.
       rewrite Hg. apply (step_done s G j); assumption.
+  - (* micro *) cbn [fst snd ghost]. apply step_micro. exact HI.
+  - (* site *) destruct (to_site crc32 bufsize 10 b s) as [s1|] eqn:Es; cbn [fst snd ghost]; [|exact HI].
+    apply (to_site_inv G 10 b s s1 HI Es).
   - cbn [fst snd ghost]. exact HI.
 Qed.
 
